@@ -589,6 +589,9 @@ def r11_preevaluated_data_shape(repo: Repo, rep):
         rep.saw(init), rep.saw(fw)
         # the constructor must give the pre-evaluated values the same axis
         fixes = [c for c in ast.walk(init.node) if isinstance(c, ast.Call) and isinstance(c.func, ast.Attribute) and c.func.attr == "unsqueeze" and ("data_functions" in dump(c) or "fun" in dump(c.func.value))]
+        # the same with the value held in a temporary or the function form torch.unsqueeze(v, 1): what is stored back into `<wrapper>.fun` is an unsqueezed tensor
+        fixes += [a for a in ast.walk(init.node) if isinstance(a, ast.Assign) and any(isinstance(t, ast.Attribute) and t.attr == "fun" for t in a.targets)
+                  and isinstance(a.value, ast.Call) and isinstance(a.value.func, ast.Attribute) and a.value.func.attr == "unsqueeze"]
         own_setup = ci.methods.get("_setup_data_functions")
         rep.check(R, bool(fixes) or own_setup is not None, init.site(), init.fq, f"pre-evaluated data gets the axis forward inserts (unsqueeze(dim={inserted[0]}))",
                   "values pre-evaluated on the un-expanded points are used as they are", f"{ci.name}: pre-evaluated data lacks axis {inserted[0]}")
